@@ -1055,11 +1055,11 @@ func runC04(c *Ctx) error {
 		case "corpus":
 			second = append(second, d)
 		case "random":
-			if len(second) < c.Pick(170, 2600) {
+			if len(second) < c.Pick(170, 900) {
 				second = append(second, d)
 			}
 		default:
-			if (seq+int(c.Seed))%c.Pick(23, 3) == 0 {
+			if (seq+int(c.Seed))%c.Pick(23, 7) == 0 {
 				second = append(second, d)
 			}
 		}
